@@ -234,7 +234,8 @@ type Focus struct {
 type plannedReq struct{ id, accused string }
 
 type govFlow struct {
-	stage   int // 0 idle, 1 created+funded (vote next), 2 voted
+	stage   int                   // 0 idle, 1 created+funded (vote next), 2 voted
+	twin    governance.ProposalID // a second proposal that shares the first one's schedule ("" = none)
 	id      governance.ProposalID
 	n       int
 	started int64
@@ -931,7 +932,23 @@ func (f *Focus) govStep(v *View) []txgen.Tx {
 		fd.Tags = []string{"gov-fund"}
 		f.gov.stage = 1
 		f.feat("gov-proposal")
-		return []txgen.Tx{c, fd}
+		out := []txgen.Tx{c, fd}
+		f.gov.twin = ""
+		if f.pct(35, "gov-twin") {
+			// a second config update created, funded, voted on and therefore finalised together with the first: two
+			// option updates (often of one family) take effect in one block
+			f.gov.twin = txgen.ProposalID(fmt.Sprintf("gov-%s-%d-twin", w.P.Seed, f.gov.n))
+			m2 := m
+			m2.ProposalID = f.gov.twin
+			m2.ConfigUpdate = sample(f.u(), govUpdates, "cfg2")
+			c2 := txgen.ProposalCreate(users[2], withProposer(m2, users[2].Addr), w.Fee, w.Memo())
+			c2.Tags = []string{"gov-create", "gov-twin", m2.ConfigUpdate}
+			fd2 := txgen.ProposalFund(users[1], f.gov.twin, users[1].Addr, txgen.Amt("OLT", big10(w.P.PropFundingGoal)), w.Fee, w.Memo())
+			fd2.Tags = []string{"gov-fund", "gov-twin"}
+			out = append(out, c2, fd2)
+			f.feat("gov-twin-proposal")
+		}
+		return out
 	case 1:
 		var out []txgen.Tx
 		for _, r := range v.SortedVals() {
@@ -946,6 +963,11 @@ func (f *Focus) govStep(v *View) []txgen.Tx {
 			tx := txgen.ProposalVote(f.gov.id, acct.Addr, val.Key.Addr, op, w.Fee, w.Memo(), acct, val.Key)
 			tx.Tags = []string{"gov-vote"}
 			out = append(out, tx)
+			if f.gov.twin != "" {
+				tx2 := txgen.ProposalVote(f.gov.twin, acct.Addr, val.Key.Addr, op, w.Fee, w.Memo(), acct, val.Key)
+				tx2.Tags = []string{"gov-vote", "gov-twin"}
+				out = append(out, tx2)
+			}
 		}
 		f.gov.stage = 2
 		return out
@@ -961,6 +983,11 @@ func (f *Focus) govStep(v *View) []txgen.Tx {
 		}
 	}
 	return nil
+}
+
+func withProposer(m agov.CreateProposal, a keys.Address) agov.CreateProposal {
+	m.Proposer = a
+	return m
 }
 
 func (f *Focus) send() []txgen.Tx {
